@@ -40,7 +40,7 @@ def run_case(case):
     died, harness = thread_exc_violations(hist['thread_excs'], V)
     if harness and sd is None:
         raise HarnessError('thread exception in buffer harness: %r' % harness)
-    viol = B.judge_barrier(case, hist) + (died if sd is None else [])
+    viol = B.judge_barrier(case, hist) + (died if sd is None else []) + B.judge_other(case, hist)
     cl = ['sched=' + case['sched']['mode']]
     busy_wait = False
     for w in hist['waits']:
